@@ -12,7 +12,7 @@ import random
 
 import numpy as np
 
-from .. import core, material as M, tlc, obs
+from .. import core, material as M, tlc, obs, zoo
 from .. import drive_obj as D
 from ..kern_util import call_guard, cmp_vec
 from . import C07
@@ -185,6 +185,34 @@ def obs_events(chk):
                     ev['len_ok'] = False
                     ev['exc'] = repr(e)[:100]
                 batch.add(ev, {'cls': name, 'dt': dt, 'n': n, 'nfft': nfft, 's1': s1, 's2': s2, 'seed': chk.seed})
+    # the functional periodogram family and the Daniell class: scale_by_freq multiplies by 2*pi/df with
+    # df = sampling/NFFT (NFFT different from the data length included)
+    import spectrum as sp
+    for rep in range(4 if chk.tier == 'quick' else 24):
+        n = int(rng.choice([32, 48]))
+        dt = ('real', 'complex')[rep % 2]
+        x = zoo.signal(rng, n, dt == 'complex', 'noise')
+        nfft = [n, 64, 65, 2 * n][rep % 4]
+        s1 = float(10 ** rng.uniform(-2, 5))
+        forms = {
+            'speriodogram': lambda sc: sp.speriodogram(x.copy(), NFFT=nfft, detrend=False, sampling=s1, scale_by_freq=sc, window='hann'),
+            'DaniellPeriodogram': lambda sc: sp.DaniellPeriodogram(x.copy(), 2, NFFT=nfft, detrend=None, sampling=s1, scale_by_freq=sc)[0],
+            'pdaniell': lambda sc: np.array(sp.pdaniell(x.copy(), 2, NFFT=nfft, sampling=s1, scale_by_freq=sc).psd),
+        }
+        for fname, f in forms.items():
+            ev = {'ev': 'normalisation', 'cls': fname, 'family': 'unchanged', 'dt': dt, 'nfft': nfft}
+            ok1, vF = call_guard(f, False)
+            ok2, vT = call_guard(f, True)
+            ev['raised'] = not (ok1 and ok2)
+            df = s1 / nfft
+            if ok1 and ok2:
+                ev['scale_dev'] = obs.q(rel_dev(vT, np.asarray(vF) * (2 * math.pi / df)))
+                ev['scale_twice_dev'] = obs.q(rel_dev(vT, np.asarray(vF) * (2 * math.pi / df) ** 2))
+                ev['scale_none_dev'] = obs.q(rel_dev(vT, vF))
+            else:
+                ev.update(scale_dev=0, scale_twice_dev=0, scale_none_dev=0)
+            ev.update(samp_unchanged_dev=0, samp_divides_dev=0, samp_multiplies_dev=0, axis_dev=0, df_dev=0, len_ok=True)
+            batch.add(ev, {'form': fname, 'dt': dt, 'n': n, 'nfft': nfft, 's1': s1, 'seed': chk.seed})
     obs.validate(chk, batch, 'obs-normalisation',
                  lambda ev, cl: 'C08:%s:%s%s' % (ev['cls'], cl, (':twice' if cl == 'scaled-exactly-once' and ev['scale_twice_dev'] < 1000
                                                                   else ':never' if cl == 'scaled-exactly-once' and ev['scale_none_dev'] < 1000 else '')),
